@@ -471,11 +471,8 @@ class C11(PoolCheck):
                     del c['muts'][k]
                     yield c
         elif case['kind'] == 'stack':
-            for d in (case['depth'] // 2, case['depth'] - 50, case['depth'] - 5, case['depth'] - 1):
-                if 2 <= d < case['depth']:
-                    c = jcopy(case)
-                    c['depth'] = d
-                    yield c
+            # the depth is not shrunk: the exact threshold depends on the caller's own stack depth, and a
+            # replay sitting on it would not be robust across entry paths
             if case['offset']:
                 c = jcopy(case)
                 c['offset'] = 0
